@@ -19,7 +19,7 @@ unsigned long wrap_fail_at = 0;   /* 0 = never */
 int wrap_persist = 0;
 int wrap_bad = 0;                 /* free/realloc of a block we do not know, or table overflow */
 
-#define LIVE_SLOTS (1u << 17)
+#define LIVE_SLOTS (1u << 15)
 static struct { void * p; size_t sz; } live[LIVE_SLOTS];
 long wrap_nlive = 0;
 
